@@ -181,7 +181,8 @@ def gen_items(rng, opts, ctxflags, depth=0, maxitems=6, p_unknown=0.0, titles=No
                 toks.append(title_token(rng, t))
             toks.append(b"{")
             if o.flags & KEYSTRVAL:
-                keys = [b"k1", b"k2", b"key", b"K1"]
+                # plain keys, and keys that look like paths: a key is any string, and a repeated key is the same option (F49)
+                keys = [b"k1", b"k2", b"key", b"K1", b'"a|b"', b'"x=1"', b"p|q", b'"a|b|c"']
                 if kv_keys:
                     # arbitrary byte strings as keys, written as whatever token form can carry them
                     keys = keys + [str_token(rng, k) for k in kv_keys]
@@ -193,7 +194,10 @@ def gen_items(rng, opts, ctxflags, depth=0, maxitems=6, p_unknown=0.0, titles=No
                 for _k in range(rng.randint(0, 3)):
                     if bounds is not None:
                         bounds.append(len(toks))
-                    toks += [rng.choice(keys), b"=", str_token(rng, rng.choice(STR_BYTES))]
+                    k_ = rng.choice(keys)
+                    toks += [k_, b"=", str_token(rng, rng.choice(STR_BYTES))]
+                    if rng.random() < 0.25:
+                        toks += [k_, b"=", str_token(rng, rng.choice(STR_BYTES))]
             if depth < 3:
                 gen_items(rng, o.subs, ctxflags, depth + 1, max(1, maxitems - 2), p_unknown, titles, toks, bounds, kv_keys)
             elif bounds is not None:
